@@ -38,6 +38,19 @@ var families = []family{
 	{"many-slashes", func(n int) string { return "http://h" + strings.Repeat("/", n) }, "parse"},
 	{"many-backslashes", func(n int) string { return "http://h" + strings.Repeat("\\", n) }, "parse"},
 	{"many-dot-segments", func(n int) string { return "http://h" + strings.Repeat("/a/..", n/5) }, "parse"},
+	{"two-segments-then-dot-dot", func(n int) string { return "http://h" + strings.Repeat("/a/b/..", n/7) }, "parse"},
+	{"three-segments-then-two-dot-dot", func(n int) string { return "http://h" + strings.Repeat("/a/b/c/../..", n/12) }, "parse"},
+	{"two-segments-then-escaped-dot-dot", func(n int) string { return "sc://h" + strings.Repeat("/a/b/%2e%2E", n/11) }, "parse"},
+	{"two-segments-then-dot-dot-href", func(n int) string { return "http://h" + strings.Repeat("/a/b/..", n/7) }, "href"},
+	{"dot-and-empty-segments", func(n int) string { return "http://h" + strings.Repeat("/.//a", n/5) }, "parse"},
+	{"file-drive-and-dot-dot", func(n int) string { return "file:///C:" + strings.Repeat("/a/b/..", n/7) }, "parse"},
+	{"relative-two-segments-then-dot-dot", func(n int) string { return strings.Repeat("a/b/../", n/7) }, "resolve"},
+	{"credentials-escaped", func(n int) string { return "http://" + strings.Repeat("%41", n/6) + ":" + strings.Repeat(" ", n/2) + "@h/" }, "parse"},
+	{"at-and-colon-mixed", func(n int) string { return "http://" + strings.Repeat("a:@", n/3) + "h/" }, "parse"},
+	{"query-many-empty-pairs", func(n int) string { return "http://h/?" + strings.Repeat("&", n) }, "searchparams"},
+	{"query-plus-and-escapes", func(n int) string { return "http://h/?" + strings.Repeat("a+b=%20c&", n/9) }, "searchparams"},
+	{"fragment-non-ascii", func(n int) string { return "http://h/#" + strings.Repeat("é", n/2) }, "parse"},
+	{"opaque-path-non-url-units", func(n int) string { return "sc:" + strings.Repeat("\"", n) }, "parse"},
 	{"many-double-dot-segments", func(n int) string { return "http://h" + strings.Repeat("/..", n/3) }, "parse"},
 	{"many-escaped-dot-segments", func(n int) string { return "http://h" + strings.Repeat("/%2e", n/4) }, "parse"},
 	{"long-path-segment-encoded", func(n int) string { return "http://h/" + strings.Repeat(" a", n/2) }, "parse"},
